@@ -187,6 +187,17 @@ func (it *IndexIterator) Seek(key []byte) {
 		return
 	}
 
+	// Seek 只向前移动: 目标 key 在遍历顺序上位于当前位置之前时保持原位.
+	// 已失效的迭代器只持有当前位置之前的 key, 重新定位时不会再被考虑,
+	// 若允许向后 Seek, 结果将取决于 key 在各分片上的分布, 即取决于分片数量
+	cmp := bytes.Compare(key, it.heap.items[0].key())
+	if it.heap.reverse {
+		cmp = -cmp
+	}
+	if cmp < 0 {
+		return
+	}
+
 	oldItems := it.heap.items
 	it.heap.items = nil
 	for _, item := range oldItems {
